@@ -433,6 +433,7 @@ def rule_r7(ctx):
 def rule_r8(ctx):
     """Shared with C11.R2/R4: once the refusal closed the connection no further input is parsed or polled."""
     from . import c11
+    c11.rule_r1(ctx, rid="C06.R8")
     c11.rule_r2(ctx, rid="C06.R8")
     c11.rule_r4(ctx, rid="C06.R8")
 
